@@ -94,12 +94,12 @@ class C01(DecProp):
                    "usize arithmetic modelled on unbounded Nat (64-bit target)"]
 
     def cases(self, tier, rng):
-        n = 250 if tier == "quick" else 3000
+        n = core.q(tier, 250, 3000)
         seed = rng.randint(1, 10 ** 6)
         base = core.gen_lines("intra", seed, n) + core.gen_lines("inter", seed + 1, n) + core.gen_lines("hist", seed + 2, n)
         out = list(base)
         for l in base:
-            for _ in range(2 if tier == "quick" else 4):
+            for _ in range(core.q(tier, 2, 4)):
                 out.append(mutate_line(rng, l))
         for _ in range(n * 4):
             nb = rng.randint(3, 60)
@@ -130,7 +130,7 @@ class C02(DecProp):
     assumptions = ["the ideal-transform clause is delegated to C10 (Annex A accuracy of the same soft-float IDCT model)"]
 
     def cases(self, tier, rng):
-        return core.gen_lines("intra", rng.randint(1, 10 ** 6), 500 if tier == "quick" else 8000)
+        return core.gen_lines("intra", rng.randint(1, 10 ** 6), core.q(tier, 500, 8000))
 
 
 @register
@@ -142,7 +142,7 @@ class C03(DecProp):
             "any macroblock; real decoder vs. Lean model, planes by hash.  Non-trivial: at least one predicted picture decodes; distinct by text.")
 
     def cases(self, tier, rng):
-        return core.gen_lines("inter", rng.randint(1, 10 ** 6), 500 if tier == "quick" else 8000)
+        return core.gen_lines("inter", rng.randint(1, 10 ** 6), core.q(tier, 500, 8000))
 
     def nontrivial(self, case, model_out):
         return len(re.findall(r"(^P|\|) ok ", model_out)) >= 2
@@ -179,7 +179,7 @@ class C04(DecProp):
     assumptions = ["temporal references are below 0x8000 (parsed values are at most 10 bits)"]
 
     def cases(self, tier, rng):
-        return core.gen_lines("hist", rng.randint(1, 10 ** 6), 600 if tier == "quick" else 10000)
+        return core.gen_lines("hist", rng.randint(1, 10 ** 6), core.q(tier, 600, 10000))
 
     def nontrivial(self, case, model_out):
         ops = split_ops(model_out)
@@ -213,7 +213,7 @@ class C05(DecProp):
             "followed by a successful one; distinct by text.")
 
     def cases(self, tier, rng):
-        n = 250 if tier == "quick" else 3000
+        n = core.q(tier, 250, 3000)
         seed = rng.randint(1, 10 ** 6)
         out = core.gen_lines("hist", seed, n)
         # failing pictures planted into valid histories
@@ -226,7 +226,7 @@ class C05(DecProp):
             out.append(f"P {t[1]} " + ";".join(ops2))
         # split deliveries
         self._splits = {}
-        whole = core.gen_lines("intra", seed + 2, 40 if tier == "quick" else 300)
+        whole = core.gen_lines("intra", seed + 2, core.q(tier, 40, 300))
         for l in whole:
             t = l.split(" ")
             hx = t[2][2:]
@@ -293,8 +293,8 @@ class C13(DecProp):
             "catch_unwind with debug assertions on; outcome, RGBA length and hash compared with the model pipeline.  Non-trivial: the picture decodes and is post-processed; distinct by text.")
 
     def cases(self, tier, rng):
-        out = core.gen_lines("sizes", rng.randint(1, 10 ** 6), 24 if tier == "quick" else 40)
-        more = core.gen_lines("intra", rng.randint(1, 10 ** 6), 150 if tier == "quick" else 3000)
+        out = core.gen_lines("sizes", rng.randint(1, 10 ** 6), core.q(tier, 24, 40))
+        more = core.gen_lines("intra", rng.randint(1, 10 ** 6), core.q(tier, 150, 3000))
         out += ["PP " + l.split(" ")[1] + " " + l.split(" ")[2][2:] for l in more]
         return out
 
@@ -329,7 +329,7 @@ class C15(DecProp):
             "two lines against each other on the implementation's own output (same result and same last picture after every call).  Non-trivial: at least two pictures decode; distinct by text.")
 
     def cases(self, tier, rng):
-        return core.gen_lines("concat", rng.randint(1, 10 ** 6), 300 if tier == "quick" else 5000)
+        return core.gen_lines("concat", rng.randint(1, 10 ** 6), core.q(tier, 300, 5000))
 
     def nontrivial(self, case, model_out):
         return len(re.findall(r"(^P|\|) ok ", model_out)) >= 2
@@ -361,12 +361,12 @@ class C17(DecProp):
     assumptions = ["thread scheduling, the allocator and lazy-static initialisation races are runtime behaviour the model cannot exhibit; observed only through the harness"]
 
     def cases(self, tier, rng):
-        n = 120 if tier == "quick" else 1500
+        n = core.q(tier, 120, 1500)
         seed = rng.randint(1, 10 ** 6)
         h1 = core.gen_lines("hist", seed, n)
         h2 = core.gen_lines("inter", seed + 1, n)
         h3 = core.gen_lines("intra", seed + 2, n)
-        th = 4 if tier == "quick" else 8
+        th = core.q(tier, 4, 8)
         out = []
         for a, b, c in zip(h1, h2, h3):
             parts = [a[2:], b[2:]] + ([c[2:]] if rng.random() < 0.5 else [])
@@ -475,7 +475,7 @@ class C14(Prop):
         widths = [0, 1, 7, 8, 9, 16, 17, 31, 32]
         basic = [f"pk{w}" for w in widths] + [f"rd{w}" for w in widths] + [f"rs{w}" for w in widths if w] + ["sk1", "sk8", "sk17", "sc0", "sc1", "cm", "vl0"]
         srcs = ["a5c3f00f", "00008a", "ff", "000000010000"]
-        depth = 2 if tier == "quick" else 3
+        depth = core.q(tier, 2, 3)
         import itertools
         for src in srcs:
             for W in (8, 32):
@@ -483,7 +483,7 @@ class C14(Prop):
                     pool = basic if k < 3 else basic[::3]
                     for combo in itertools.product(pool, repeat=k):
                         out.append(f"R {W} {src} {';'.join(combo)}")
-        for _ in range(20000 if tier == "quick" else 400000):
+        for _ in range(core.q(tier, 20000, 400000)):
             nb = rng.randint(0, 12)
             style = rng.randint(0, 3)
             if style == 0:
